@@ -131,7 +131,16 @@ func runScript(t *testing.T, sc script) (out outcome) {
 		for _, f := range sc.fails {
 			w.fails[f] = true
 		}
-		atk := vegeta.NewAttacker(vegeta.Client(&http.Client{Transport: w}), vegeta.Workers(sc.initw), vegeta.MaxWorkers(sc.maxw))
+		// the options in either order, and sometimes a pause between building the attacker and starting
+		// the attack: neither may change anything (the attack's clock starts with Attack)
+		opts := []func(*vegeta.Attacker){vegeta.Client(&http.Client{Transport: w}), vegeta.Workers(sc.initw), vegeta.MaxWorkers(sc.maxw)}
+		if (len(sc.ops)+int(sc.initw))%2 == 1 {
+			opts[1], opts[2] = opts[2], opts[1]
+		}
+		atk := vegeta.NewAttacker(opts...)
+		if (len(sc.ops)+int(sc.maxw%7))%3 == 0 {
+			time.Sleep(300 * time.Millisecond)
+		}
 		w.start = time.Now()
 		results := atk.Attack(w.target, w, time.Duration(sc.du), "scripted")
 		released := map[int64]bool{}
